@@ -89,3 +89,26 @@ PROPS["C16"] = dict(
     trusted=["goja's lexer implements the ES string-literal grammar; JSON.parse/JSON.stringify of goja", "encoding/json string encoder (modelled, compared on every case)"],
     assumptions=["file text is taken as its UTF-8 decoding (ill-formed bytes become U+FFFD on both sides of the oracle)"],
 )
+
+PROPS["C10"] = dict(
+    harness="bufnum", module="Cases.C10Check", shard=150,
+    level_text="For every numeric method descriptor regenerated from buffer.go (coercions, the offset/byteLength guards as int64-wrap expression "
+               "ASTs, the value-range guards, the store/load primitive) the theorems state, for every buffer, value, offset and byteLength: the "
+               "write succeeds iff representable and in range, stores exactly the two's-complement / IEEE bytes, changes nothing else, returns "
+               "offset+width; the read decodes by the same encoding and read(write v) = v; otherwise a Range/TypeError with the buffer untouched, "
+               "and no Go panic (slice bounds) is reachable",
+    level_note="Proof is about Model/Buffer.v interpreting Gen/BufferMethods.v (descriptors, guards, registrations, goutil coercion rules "
+               "generated from the source every run). goja's ToInteger/ToFloat and Go's float32() rounding enter as oracles (the latter is "
+               "modelled in Z arithmetic and compared on every case). Fractional values for integer methods are truncated first (goja ToInteger), "
+               "as the implementation does; float32 magnitudes above MaxFloat32 throw (pinned by the project's tests).",
+    rule="every installed read*/write* method in turn; 55% structured mostly-valid calls (value at a power-of-two boundary of the width or "
+         "random in range, offset inside or at the edge), 45% hostile (offsets -1, len-w+1, 2^31, 2^53, 2^63-w.., 1e30, NaN, non-numbers; values "
+         "beyond 64 bits, negative BigInts for unsigned, denormals, NaN, +-0, +-Infinity; byteLength 0,7,8,fractional); non-trivial = offset "
+         "within 1 of the buffer edge or near 2^63; distinct by hash",
+    codes={"Diff1": "model result/bytes differ", "Diff2": "model error class differs or buffer changed", "Diff3": "model outcome kind differs",
+           "SpecFail1": "wrong bytes, stray byte or wrong return value", "SpecFail2": "wrong error class or buffer changed by a rejected call",
+           "SpecFail3": "rejected a representable in-range value", "SpecFail4": "accepted a value/offset that must be rejected",
+           "SpecFail5": "Go panic escaped", "SpecFail6": "hang", "SpecFail7": "installed numeric method unknown to the specification table"},
+    trusted=["goja ToInteger/ToFloat/BigInt export; Go float32 conversion (modelled, compared)"],
+    assumptions=["fractional offsets and float32 overflow are outside the claim (property text)"],
+)
